@@ -153,7 +153,11 @@ func cmdCheck(args []string) int {
 		fmt.Fprintln(os.Stderr, "bad configuration:", err)
 		return 2
 	}
-	ctx := &checkCtx{id: id, tier: tier, seed: seed, conf: &conf, known: loadKnown(), outDir: filepath.Join(verifDir, "out", id)}
+	outRoot := verifDir
+	if d := os.Getenv("GOVC_OUT"); d != "" {
+		outRoot = d // selftests write their evidence and replay files elsewhere
+	}
+	ctx := &checkCtx{id: id, tier: tier, seed: seed, conf: &conf, known: loadKnown(), outDir: filepath.Join(outRoot, "out", id)}
 	os.RemoveAll(ctx.outDir)
 	os.MkdirAll(ctx.outDir, 0o755)
 
@@ -182,9 +186,9 @@ func cmdCheck(args []string) int {
 	ev.Violations = ctx.violations
 	cov["not_decided"] = conf.NotDecided
 	cov["checker_cmd"] = fmt.Sprintf("./bin/check %s %s", id, tier)
-	os.MkdirAll(filepath.Join(verifDir, "evidence"), 0o755)
+	os.MkdirAll(filepath.Join(outRoot, "evidence"), 0o755)
 	out, _ := json.MarshalIndent(ev, "", " ")
-	if err := os.WriteFile(filepath.Join(verifDir, "evidence", id+".json"), out, 0o644); err != nil {
+	if err := os.WriteFile(filepath.Join(outRoot, "evidence", id+".json"), out, 0o644); err != nil {
 		fmt.Fprintln(os.Stderr, "cannot write evidence:", err)
 		return 2
 	}
